@@ -68,7 +68,7 @@ def replay_case(case):
         data = df
         if mat == "narwhals-arrow":
             if tb is None:
-                tb = pyarrow.Table.from_pandas(df, preserve_index=False)
+                tb = matlib.arrow_table(df, nan_not_null=bool(h % 2))       # missing floats as Arrow nulls or as NaN values
             data = tb
         try:
             mm = build(formula, data, path, output, mat, case)
